@@ -1,11 +1,10 @@
 (* C01 - CSV write-then-read preserves every well-formed table bundle.
    Only statements here; every proof is one [exact] of a lemma from Proofs/.
    The text layer (lines and cells recovered exactly), one cell, one table, and the whole bundle
-   read (write_csv ts) in the reader model; tables with at least one row (zero-row tables are covered
-   by the correspondence check and the oracle only - see DESIGN.md).  The same composition is, in
+   read (write_csv ts) in the reader model, for tables with zero or more rows and at least one column.  The same composition is, in
    addition, evaluated on every generated bundle by the correspondence check (Corr/C01.v). *)
 From Coq Require Import List Arith.
-From PdV Require Import Text TextProofs WriteProofs ParseTable RoundTrip.
+From PdV Require Import Text TextProofs WriteProofs ParseTable RoundTrip RoundTripZero.
 From PdV.Model Require Import WriteCsv Segment Reader.
 Import ListNotations.
 
@@ -60,6 +59,19 @@ Theorem C01_bundle_roundtrip :
     = (events_from sep 0 ts, FDone).
 Proof. exact bundle_roundtrip. Qed.
 Print Assumptions C01_bundle_roundtrip.
+
+(* The same for tables with zero or more rows (wf_any: a table with rows as above, or a table
+   without rows; a row-wise table without rows is written with one extra empty line, which the
+   segmentation absorbs). *)
+Theorem C01_bundle_roundtrip_any :
+  forall (parse_float : str -> option ftok) (parse_dt : str -> dres) (cfg : fixer_cfg) (raising : bool)
+         (sep : N) (ts : list wtable),
+    Forall (wf_any parse_float parse_dt sep) ts -> Forall (plain_core sep) ts ->
+    forallb (fun t => forallb no_lf (table_lines sep t)) ts = true ->
+    read parse_float parse_dt cfg FPd None raising (cells_of_lines sep (lines (write_csv sep ts)))
+    = (events_from sep 0 ts, FDone).
+Proof. exact bundle_roundtrip_any. Qed.
+Print Assumptions C01_bundle_roundtrip_any.
 
 (* non-vacuity: a transposed table with an empty string in a non-first text column keeps it *)
 Example C01_example :
